@@ -107,11 +107,20 @@ class Inliner:
                     # Cls._h(x, ..): a static helper, or an instance helper with the receiver
                     # passed explicitly -- either way all parameters are bound positionally
                     return h, False
-        if isinstance(f, ast.Name) and _is_private(f.id):
+        if isinstance(f, ast.Name):
             r = self.repo.resolve_name(fi.module, f.id)
-            if r is not None and hasattr(r, 'params') and r.cls is None:
+            if r is not None and hasattr(r, 'params') and r.cls is None and \
+                    (_is_private(f.id) or self._guard_only(r)):
                 return r, False
         return None
+
+    @staticmethod
+    def _guard_only(h):
+        """a module-level function whose whole body is `if <test>: raise ..` statements: a validation
+        helper; inlining it is what makes the guard visible at the call site, whatever its name"""
+        b = _body(h.raw_node)
+        return bool(b) and all(isinstance(st, ast.If) and not st.orelse and len(st.body) == 1 and
+                               isinstance(st.body[0], ast.Raise) for st in b)
 
     @staticmethod
     def _has_self(h):
@@ -130,7 +139,7 @@ class Inliner:
     def inlinable(self, h):
         n = h.raw_node
         a = n.args
-        if a.vararg or a.kwarg:
+        if a.kwarg:
             return False
         for x in ast.walk(n):
             if isinstance(x, (ast.Yield, ast.YieldFrom, ast.Await, ast.Global, ast.Nonlocal, ast.Lambda)):
@@ -149,7 +158,18 @@ class Inliner:
     # ------------------------------------------------------------------ instantiation
     def instantiate(self, h, call, skip_self):
         """-> (prelude statements, renamed body statements, direct-substitution ok)"""
-        env = bind_args(_Fake(h), call, skip_self=skip_self)
+        va = h.raw_node.args.vararg
+        if va is not None:
+            # *names: the surplus positional arguments as a tuple display
+            if any(isinstance(x, ast.Starred) for x in call.args) or any(k.arg is None for k in call.keywords):
+                return None
+            npos = len(h.raw_node.args.posonlyargs + h.raw_node.args.args) - (1 if skip_self else 0)
+            trimmed = ast.Call(func=call.func, args=call.args[:npos], keywords=call.keywords)
+            env = bind_args(_Fake(h), trimmed, skip_self=skip_self)
+            if env is not None:
+                env[va.arg] = ast.Tuple(elts=list(call.args[npos:]), ctx=ast.Load())
+        else:
+            env = bind_args(_Fake(h), call, skip_self=skip_self)
         if env is None or any(v is MISSING for v in env.values()):
             return None
         self.counter += 1
@@ -163,12 +183,15 @@ class Inliner:
         params = [p.arg for p in h.raw_node.args.posonlyargs + h.raw_node.args.args + h.raw_node.args.kwonlyargs]
         if skip_self and params and params[0] == 'self':
             params = params[1:]
+        if va is not None:
+            params.append(va.arg)
         mapping, direct, prelude = {}, {}, []
         for p in params:
             arg = env.get(p)
             if arg is None:
                 return None
-            if _simple_arg(arg) and p not in assigned:
+            if (_simple_arg(arg) or (va is not None and p == va.arg and all(_simple_arg(x) for x in arg.elts))) \
+                    and p not in assigned:
                 direct[p] = arg
             else:
                 mapping[p] = p + tag
@@ -352,6 +375,19 @@ class _ExprInline(ast.NodeTransformer):
     def visit_Lambda(self, node):
         return node
 
+    def visit_Attribute(self, node):
+        self.generic_visit(node)
+        # a private read-only property with a one-expression body:  self._formulated
+        if isinstance(node.ctx, ast.Load) and isinstance(node.value, ast.Name) and node.value.id == 'self' \
+                and _is_private(node.attr) and self.fi.cls is not None:
+            h = self.inl.repo.resolve_method(self.fi.cls, node.attr)
+            if h is not None and any(isinstance(d, ast.Name) and d.id == 'property' for d in h.raw_node.decorator_list) \
+                    and self.inl._is_expr_helper(h) and self.inl.inlinable(h) and self.inl.usable_from(h, self.fi):
+                self.changed[0] = True
+                self.inl._note(h, True)
+                return ast.copy_location(copy.deepcopy(_body(h.raw_node)[0].value), node)
+        return node
+
     def visit_Call(self, node):
         self.generic_visit(node)
         hit = self.inl.helper_for(self.fi, node)
@@ -411,8 +447,9 @@ class Desugar(ast.NodeTransformer):
     spelling:   setattr(o, 'f', v) -> o.f = v ;  getattr(o, 'f') -> o.f ;
     for a in ('f', 'g'): <body using a only as such a literal name>  ->  body unrolled."""
 
-    def __init__(self):
+    def __init__(self, consts=None):
         self.changed = False
+        self.consts = consts or {}
 
     def visit_FunctionDef(self, node):
         self.generic_visit(node)
@@ -420,6 +457,8 @@ class Desugar(ast.NodeTransformer):
 
     def visit_For(self, node):
         it = node.iter
+        if isinstance(it, ast.Name) and isinstance(self.consts.get(it.id), (ast.Tuple, ast.List)):
+            it = self.consts[it.id]           # a module-level tuple of names
         if isinstance(node.target, ast.Name) and isinstance(it, (ast.Tuple, ast.List)) and it.elts and \
                 len(it.elts) <= 40 and not node.orelse and \
                 all(isinstance(e, ast.Constant) and isinstance(e.value, str) for e in it.elts) and \
@@ -461,11 +500,41 @@ class Desugar(ast.NodeTransformer):
         return node
 
 
-def desugar(fn_node):
-    d = Desugar()
+def desugar(fn_node, consts=None):
+    d = Desugar(consts)
     new = copy.deepcopy(fn_node)
     new.body = [y for s in new.body for y in (lambda r: r if isinstance(r, list) else [r])(d.visit(s))]
     if not d.changed:
         return fn_node, False
     ast.fix_missing_locations(new)
     return new, True
+
+
+
+class SuperCalls(ast.NodeTransformer):
+    """Base.method(self, args) inside a method of a subclass of Base, where super().method would
+    resolve to the same function  ->  super().method(args)   (one spelling for rules)"""
+
+    def __init__(self, repo, fi):
+        self.repo = repo
+        self.fi = fi
+        self.changed = False
+
+    def visit_Call(self, node):
+        self.generic_visit(node)
+        f = node.func
+        if isinstance(f, ast.Attribute) and isinstance(f.value, ast.Name) and node.args and \
+                isinstance(node.args[0], ast.Name) and node.args[0].id == 'self' and self.fi.cls is not None:
+            base = self.repo.resolve_name(self.fi.module, f.value.id)
+            if base is not None and hasattr(base, 'methods') and base is not self.fi.cls and \
+                    base in self.repo.mro(self.fi.cls):
+                viasuper = self.repo.resolve_method(self.fi.cls, f.attr, after=self.fi.cls)
+                direct = self.repo.resolve_method(base, f.attr)
+                if viasuper is not None and viasuper is direct:
+                    self.changed = True
+                    new = ast.Call(func=ast.Attribute(value=ast.Call(func=ast.Name(id='super', ctx=ast.Load()),
+                                                                     args=[], keywords=[]),
+                                                      attr=f.attr, ctx=ast.Load()),
+                                   args=node.args[1:], keywords=node.keywords)
+                    return ast.copy_location(new, node)
+        return node
